@@ -7,6 +7,9 @@ import MayVerif.Proof.Runtime.Cancel.EB
 import MayVerif.Proof.Runtime.Cancel.PF
 import MayVerif.Proof.Runtime.Cancel.KF
 import MayVerif.Proof.Runtime.Cancel.EF
+import MayVerif.Proof.Runtime.Cancel.PD
+import MayVerif.Proof.Runtime.Cancel.KD
+import MayVerif.Proof.Runtime.Cancel.ED
 namespace MayVerif.Cancel
 
 theorem invA_maxE (sh : Sh) (ppc : PPc) (kpc : Nat → KPc) (epc : Tid → EPc) (m : Nat) (h : InvA ⟨sh, ppc, kpc, epc⟩) :
@@ -21,8 +24,13 @@ theorem invB_maxE (sh : Sh) (ppc : PPc) (kpc : Nat → KPc) (epc : Tid → EPc) 
 
 theorem invF_maxE (sh : Sh) (ppc : PPc) (kpc : Nat → KPc) (epc : Tid → EPc) (m : Nat) (h : InvF ⟨sh, ppc, kpc, epc⟩) :
     InvF ⟨{ sh with maxE := m }, ppc, kpc, epc⟩ := by
-  obtain ⟨h1, h2, h3, h4, h5, h6, h7⟩ := h
-  exact ⟨h1, h2, h3, h4, h5, h6, h7⟩
+  obtain ⟨h1, h2, h3, h4, h5, h6, h7, h8⟩ := h
+  exact ⟨h1, h2, h3, h4, h5, h6, h7, h8⟩
+
+theorem invD_maxE (sh : Sh) (ppc : PPc) (kpc : Nat → KPc) (epc : Tid → EPc) (m : Nat) (h : InvD ⟨sh, ppc, kpc, epc⟩) :
+    InvD ⟨{ sh with maxE := m }, ppc, kpc, epc⟩ := by
+  obtain ⟨h1, h2, h3, h4, h5, h6, h7, h8, h9, h10, h11, h12⟩ := h
+  exact ⟨h1, h2, h3, h4, h5, h6, h7, h8, h9, h10, h11, h12⟩
 
 theorem invA_step (s s' : St) (a : Actor) (e : Env) (h : InvA s) (hs : step s a e = some s') : InvA s' := by
   obtain ⟨sh, ppc, kpc, epc⟩ := s
@@ -125,6 +133,47 @@ theorem invAF_run (s : St) (sched : List (Actor × Env)) (hA : InvA s) (hF : Inv
     · next s' hs => exact ih _ (invA_step _ _ _ _ hA hs) (invF_step _ _ _ _ hA hF hs)
     · exact ih _ hA hF
 
+theorem invD_step (s s' : St) (a : Actor) (e : Env) (hA : InvA s) (h : InvD s) (hs : step s a e = some s') : InvD s' := by
+  obtain ⟨sh, ppc, kpc, epc⟩ := s
+  cases a with
+  | p =>
+    simp only [step] at hs
+    split at hs
+    · contradiction
+    · next sh' pc' ks hts =>
+      simp only [Option.some.injEq] at hs; subst hs
+      exact invD_pstep sh ppc kpc epc e hA h sh' pc' ks hts
+  | k n =>
+    simp only [step] at hs
+    split at hs
+    · contradiction
+    · next sh' pc' hts =>
+      simp only [Option.some.injEq] at hs; subst hs
+      exact invD_kstep sh ppc kpc epc n e hA h sh' pc' hts
+  | e t =>
+    simp only [step, estep] at hs
+    split at hs
+    · contradiction
+    · next sh' pc' hts =>
+      split at hts
+      · contradiction
+      · next sh0 pc0 hts0 =>
+        simp only [Option.some.injEq, Prod.mk.injEq] at hts
+        obtain ⟨rfl, rfl⟩ := hts
+        simp only [Option.some.injEq] at hs; subst hs
+        exact invD_maxE _ _ _ _ _ (invD_estep sh ppc kpc epc t e hA h sh0 pc0 hts0)
+
+theorem invAD_run (s : St) (sched : List (Actor × Env)) (hA : InvA s) (hD : InvD s) :
+    InvA (run s sched) ∧ InvD (run s sched) := by
+  induction sched generalizing s with
+  | nil => simpa [run] using ⟨hA, hD⟩
+  | cons ae r ih =>
+    obtain ⟨a, e⟩ := ae
+    simp only [run]
+    split
+    · next s' hs => exact ih _ (invA_step _ _ _ _ hA hs) (invD_step _ _ _ _ hA hD hs)
+    · exact ih _ hA hD
+
 theorem invA_run (s : St) (sched : List (Actor × Env)) (h : InvA s) : InvA (run s sched) := by
   induction sched generalizing s with
   | nil => simpa [run]
@@ -151,7 +200,7 @@ structure InvBd (s : St) : Prop where
   kB : ∀ (n : Nat), s.sh.yields ≤ n → s.kpc n = .off
   eB : ∀ (t : Tid), s.sh.maxE ≤ t → s.epc t = .idle
 
-theorem invBd_init (ov : Bool) (p0 : Para) (ns : Nat) (fx : Bool) : InvBd (init ov p0 ns fx) := by
+theorem invBd_init (ov : Bool) (p0 : Para) (ns : Nat) (fx dz : Bool) : InvBd (init ov p0 ns fx dz) := by
   constructor <;> simp [init]
 
 end MayVerif.Cancel
